@@ -38,7 +38,7 @@ theorem copyFromField_plain (ov : List (String × String)) (f : Field) (k : Prim
       by_cases hk : k' = k
       · subst hk
         cases null <;> cases unk <;>
-          simp [TfVal.vkind, hvt, hp.vk, primDecode, known, hp.notNullable, hp.noOneof, hp.noEmbed, zeroPrim]
+          simp [TfVal.vkind, hvt, hp.vk, primDecode, known, hp.notNullable, hp.noOneof, hp.noEmbed, zeroPrim, embedGuard]
         cases hc : info.castFrom k' p <;> simp
       · have : (VKind.prim k' != VKind.prim k) = true := by simp [hk]
         simp [TfVal.vkind, hvt, hp.vk, hk, this]
